@@ -99,12 +99,15 @@ static bool same_extents(const A & a, const B & b)
     return true;
 }
 
-template <int LA, int LB, std::size_t N, typename S, std::size_t M, typename IDX = std::size_t>
+// ST: scalar type the TARGET stores (differs from S for the cross-precision conversions; every value written is a
+// small integer, exact in both)
+template <int LA, int LB, std::size_t N, typename S, std::size_t M, typename IDX = std::size_t, typename ST = S>
 struct Conv {
     using idx_d = cv::vector_d<IDX, N>;
     using store_t = cb::array<cv::vector_d<S, M>>;
+    using store_b = cb::array<cv::vector_d<ST, M>>;
     using A = typename layer_of<LA, idx_d, store_t>::type;
-    using Bk = typename layer_of<LB, idx_d, store_t>::type;
+    using Bk = typename layer_of<LB, idx_d, store_b>::type;
     using FA = covfie::field<A>;
     using FB = covfie::field<Bk>;
 
@@ -131,7 +134,7 @@ struct Conv {
     }
     static void one(const sc::ext_t<N> & e, vh::Rng & rng, bool listed)
     {
-        const std::string nm = std::string(lname[LA]) + "->" + lname[LB] + ",N=" + std::to_string(N) + ",array<" + vh::tn<S>() + "," + std::to_string(M) + ">" + (std::is_same_v<IDX, std::size_t> ? "" : std::string(",idx=") + vh::tn<IDX>());
+        const std::string nm = std::string(lname[LA]) + "->" + lname[LB] + ",N=" + std::to_string(N) + ",array<" + vh::tn<S>() + "," + std::to_string(M) + ">" + (std::is_same_v<IDX, std::size_t> ? "" : std::string(",idx=") + vh::tn<IDX>()) + (std::is_same_v<S, ST> ? "" : std::string(",target stores ") + vh::tn<ST>());
         if (!vh::selected(nm)) return;
         (void)listed;
         // the row-major layer accumulates the flat index in the coordinate type: a field with more cells than that
@@ -157,7 +160,7 @@ struct Conv {
                 typename FB::view_t vb(b);
                 typename FB::coordinate_t cc;
                 for (std::size_t k = 0; k < N; ++k) cc[k] = rng.below(e[k]);
-                vb.at(cc)[0] = (S)-1;
+                vb.at(cc)[0] = (ST)-1;
                 w = differs<FA, N, S, M>(a, e, model);
                 if (!w.empty()) vh::viol(nm + ":shares-storage-with-source", d + w);
             }
@@ -184,13 +187,15 @@ struct Conv {
 };
 
 // whole-stack conversion affine<I1<L1<array>>> -> affine<I2<L2<array>>>
-template <int LA, int LB, bool LIN_A, bool LIN_B, std::size_t N, typename S, std::size_t M>
+// MOVE: the conversion consumes an rvalue source (field<B> b(std::move(a))) instead of copying from an lvalue
+template <int LA, int LB, bool LIN_A, bool LIN_B, std::size_t N, typename S, std::size_t M, typename ST = S, bool MOVE = false>
 struct Stack {
     using idx_d = cv::vector_d<std::size_t, N>;
     using real_d = cv::vector_d<float, N>;
     using store_t = cb::array<cv::vector_d<S, M>>;
+    using store_b = cb::array<cv::vector_d<ST, M>>;
     using OA = typename layer_of<LA, idx_d, store_t>::type;
-    using OB = typename layer_of<LB, idx_d, store_t>::type;
+    using OB = typename layer_of<LB, idx_d, store_b>::type;
     using IA = std::conditional_t<LIN_A, cb::linear<OA, real_d>, cb::nearest_neighbour<OA, real_d>>;
     using IB = std::conditional_t<LIN_B, cb::linear<OB, real_d>, cb::nearest_neighbour<OB, real_d>>;
     using A = cb::affine<IA>;
@@ -200,7 +205,7 @@ struct Stack {
 
     static void run(std::size_t Bnd, vh::Rng & rng, unsigned stride)
     {
-        const std::string nm = std::string("affine<") + (LIN_A ? "linear<" : "nn<") + lname[LA] + ">>->affine<" + (LIN_B ? "linear<" : "nn<") + lname[LB] + ">>,N=" + std::to_string(N) + ",array<" + vh::tn<S>() + "," + std::to_string(M) + ">";
+        const std::string nm = std::string("affine<") + (LIN_A ? "linear<" : "nn<") + lname[LA] + ">>->affine<" + (LIN_B ? "linear<" : "nn<") + lname[LB] + ">>,N=" + std::to_string(N) + ",array<" + vh::tn<S>() + "," + std::to_string(M) + ">" + (std::is_same_v<S, ST> ? "" : std::string(",target stores ") + vh::tn<ST>()) + (MOVE ? ",from an rvalue" : "");
         if (!vh::selected(nm)) return;
         sc::ext_t<N> e;
         for (std::size_t k = 0; k < N; ++k) e[k] = 1;
@@ -224,7 +229,8 @@ struct Stack {
                 uint64_t p = sc::model_pos<N>(c, e);
                 for (std::size_t j = 0; j < M; ++j) rawA.at(cc)[j] = model[p * M + j] = (S)(id0 + p * M + j);
             } while (sc::next_coord<N>(c, e));
-            FB b(a);
+            FA a_src(a);
+            FB b = MOVE ? FB(std::move(a_src)) : FB(a);
             // configuration at every layer
             auto Tb = b.backend().get_configuration();
             bool same = true;
@@ -259,7 +265,7 @@ struct Stack {
                     uint64_t p = sc::model_pos<N>(c, e);
                     for (std::size_t j = 0; j < M; ++j) rawAi.at(cc)[j] = model[p * M + j];
                 } while (sc::next_coord<N>(c, e));
-                FB bi(ai);
+                FB bi = MOVE ? FB(std::move(ai)) : FB(ai);
                 typename FB::view_t vb(bi);
                 for (std::size_t k = 0; k < N; ++k) c[k] = 0;
                 do {
@@ -367,6 +373,11 @@ int main(int argc, char ** argv)
     Conv<L_HILBERT, L_MORTON_F, 2, double, 3>::run(B[2], rng);
     Conv<L_HILBERT, L_HILBERT, 2, double, 3>::run(B[2], rng);
     Stack<L_HILBERT, L_STRIDED, false, true, 2, float, 3>::run(B[2], rng, 3);
+    Conv<L_HILBERT, L_STRIDED, 2, float, 3, std::size_t, double>::run(B[2], rng);
+    Conv<L_HILBERT, L_HILBERT, 2, double, 1, std::size_t, float>::run(B[2], rng);
+    Conv<L_HILBERT, L_MORTON_T, 2, float, 1, std::size_t, double>::run(B[2], rng);
+    Stack<L_HILBERT, L_HILBERT, true, false, 2, float, 3, double, true>::run(B[2], rng, 3);
+    Stack<L_HILBERT, L_MORTON_F, false, false, 2, double, 1, double, true>::run(B[2], rng, 3);
 #else
     targets_all_n<L_STRIDED>(rng, B);
     targets_all_n<L_MORTON_T>(rng, B);
@@ -389,6 +400,19 @@ int main(int argc, char ** argv)
     Stack<SH_SRC, L_HILBERT, false, true, 2, float, 3>::run(B[2], rng, 3);
     Stack<SH_SRC, L_STRIDED, true, false, 1, float, 1>::run(B[1], rng, 3);
     Stack<SH_SRC, L_MORTON_T, false, true, 4, float, 1>::run(B[4], rng, 3);
+    // the stored scalar type changes as well (float3 field -> double3 field and back), into every storage order
+    Conv<SH_SRC, L_STRIDED, 3, float, 3, std::size_t, double>::run(B[3], rng);
+    Conv<SH_SRC, L_MORTON_T, 2, double, 3, std::size_t, float>::run(B[2], rng);
+    Conv<SH_SRC, L_MORTON_F, 3, float, 1, std::size_t, double>::run(B[3], rng);
+    Conv<SH_SRC, L_HILBERT, 2, float, 3, std::size_t, double>::run(B[2], rng);
+    Conv<SH_SRC, L_HILBERT, 2, double, 1, std::size_t, float>::run(B[2], rng);
+    Stack<SH_SRC, L_HILBERT, false, true, 2, float, 3, double>::run(B[2], rng, 3);
+    Stack<SH_SRC, L_STRIDED, true, true, 3, double, 3, float>::run(B[3], rng, 3);
+    // whole stacks converted from an rvalue (the source is consumed)
+    Stack<SH_SRC, L_STRIDED, false, true, 3, float, 3, float, true>::run(B[3], rng, 3);
+    Stack<SH_SRC, L_MORTON_T, true, false, 2, float, 1, float, true>::run(B[2], rng, 3);
+    Stack<SH_SRC, SH_SRC, false, true, 2, float, 3, float, true>::run(B[2], rng, 3);
+    Stack<SH_SRC, L_HILBERT, true, true, 2, float, 3, double, true>::run(B[2], rng, 3);
 #endif
     return vh::finish();
 }
